@@ -282,11 +282,13 @@ def run(ctx: Ctx) -> int:
         for c in calls_in(fn):
             if not (isinstance(c.func, ast.Name) and c.func.id == "adapt_typehints"):
                 continue
-            dk = next((k for k in c.keywords if k.arg == "default"), None)
-            if dk is None or (isinstance(dk.value, ast.Constant) and dk.value.value is None):
+            from .srcmodel import splat_keywords as _splat
+
+            mode = {**_splat(c), **{k.arg: k.value for k in c.keywords if k.arg}}
+            dkv = mode.get("default")
+            if dkv is None or (isinstance(dkv, ast.Constant) and dkv.value is None):
                 continue
             n_def += 1
-            mode = {k.arg: k.value for k in c.keywords}
             if any(isinstance(mode.get(m), ast.Constant) and mode[m].value is True for m in ("serialize", "instantiate_classes")):
                 ctx.oblige("C02.d", True, c, "serialising / instantiating call: the value was validated before", fn=fn)
                 continue
